@@ -218,7 +218,7 @@ extern "C" void vp_main() {
 #if NQ >= 1 && ARM <= 1
     if (nAddr == 1) vp_cover("arbitration-address-written-after-lone-syn");
 #endif
-#if HGROUP <= 1
+#if HGROUP <= 1 && (!defined(ENV_GENSYN) || ENV_GENSYN == 1)
     if (autoSynWritten) vp_cover("auto-syn-written");
 #endif
   }
